@@ -168,6 +168,9 @@ pub struct FsCase {
 	pub err_chan: u32,
 	#[serde(default)]
 	pub slow_err_handler: bool,
+	/// notify error kind carried by the injected watch failures (mockwatch::ERR_KINDS)
+	#[serde(default)]
+	pub err_kind: u8,
 }
 
 fn run_fs(c: &FsCase) -> Outcome {
@@ -194,8 +197,10 @@ fn run_fs(c: &FsCase) -> Outcome {
 	}
 	let failing: Vec<String> = all_paths.iter().enumerate().filter(|(i, _)| (*i == 1 && fail) || *i >= 2).map(|(_, p)| p.clone()).collect();
 	let failing2 = failing.clone();
+	let err_kind = c.err_kind;
 	let install = move || {
 		w2.install();
+		w2.0.lock().unwrap().err_kind = err_kind;
 		for p in &failing2 {
 			w2.0.lock().unwrap().fail_next.push((p.into(), true));
 		}
@@ -352,8 +357,9 @@ pub fn check(e: &Engine) {
 				prop_oneof![2 => Just(0u8), 1 => 1u8..13],
 				prop_oneof![Just(1u32), Just(2), Just(64)],
 				any::<bool>(),
+				0u8..8,
 			)
-				.prop_map(|(emits, fail_watch, chan, handler_ms, extra_failing, err_chan, slow_err_handler)| FsCase { emits, fail_watch, chan, handler_ms, extra_failing, err_chan, slow_err_handler })
+				.prop_map(|(emits, fail_watch, chan, handler_ms, extra_failing, err_chan, slow_err_handler, err_kind)| FsCase { emits, fail_watch, chan, handler_ms, extra_failing, err_chan, slow_err_handler, err_kind })
 				.boxed()
 		},
 		&run_fs,
